@@ -382,8 +382,8 @@ META = dict(
         "each target exactly once, then only padding, prefixes past the hypothesis all padding.  Hard OCD loss: log_softmax = logits - lse(row) with lse "
         "uninterpreted; asserted equal to the (weighted) average of -log p over the targets the library's own optimal_completion lists, 0 if none, for every reduction."),
     bounds=dict(
-        quick="targets: R=H=3,V=4,N=1 and R=H=2,V=3,N=2, fixed and symbolic (k/4,k<=8) costs; loss: R=H=2,N<=2,V=3, logits on the quarter grid in [-2,2]",
-        thorough="targets: R,H<=4, V<=5, N<=2; symbolic costs k<=16 at R=H=3; loss: R,H<=3, N<=2, V=3, all reductions, with/without class weights",
+        quick="targets: R=H=3,V=4,N=1 and R=H=2,V=3,N=2, fixed and symbolic (k/4,k<=8) costs, plus R=5,H=3 over V<=3 tokens (repeated reference tokens); loss: R=H=2,N<=2,V=3, logits on the quarter grid in [-2,2]",
+        thorough="targets: R,H<=4, V<=5, N<=2; R<=7,H<=4 over V<=3 tokens; symbolic costs k<=16 at R=H=3; loss: R,H<=3, N<=2, V=3, all reductions, with/without class weights",
     ),
     assumptions=[
         "PYTORCH_JIT=0", "costs/logits on the quarter grid; mathematical integers/reals",
@@ -406,6 +406,9 @@ def tasks(tier):
             ts.append(task(PROP, M_, "OptimalCompletionH", R=2, H=2, N=2, V=3, eos=eos, include_eos=ie, batch_first=bf, exclude_last=xl, costs=uneq))
         ts.append(task(PROP, M_, "OptimalCompletionH", R=2, H=2, N=1, V=3, eos=0, include_eos=True, batch_first=False, exclude_last=False, costs="sym"))
         ts.append(task(PROP, M_, "OptimalCompletionH", R=3, H=2, N=1, V=3, eos=0, include_eos=True, batch_first=False, exclude_last=False, costs=uneq, as_module=True))
+        # long references over a small alphabet: a token repeated three or more times (non-adjacent optimal copies must still be listed once)
+        ts.append(task(PROP, M_, "OptimalCompletionH", R=5, H=3, N=1, V=2, eos=None, include_eos=False, batch_first=False, exclude_last=False, costs=[1.0, 1.0, 1.0]))
+        ts.append(task(PROP, M_, "OptimalCompletionH", R=5, H=3, N=1, V=3, eos=0, include_eos=True, batch_first=False, exclude_last=False, costs=[1.0, 1.0, 1.0]))
         for red, bf, w in (("mean", False, False), ("none", True, True), ("sum", False, False)):
             ts.append(task(PROP, M_, "HardOcdLossH", R=2, H=2, N=2 if red != "none" else 1, V=3, eos=0, include_eos=True, batch_first=bf, reduction=red,
                            costs=[1.0, 1.0, 1.0], weight=w))
@@ -421,6 +424,8 @@ def tasks(tier):
                                costs=uneq if (R + H) % 2 else [1.0, 1.0, 1.0], time_limit=1500))
         for (R, H), (eos, ie, xl) in itertools.product(((4, 3), (3, 4)), ((0, True, False), (0, False, True), (None, False, False))):
             ts.append(task(PROP, M_, "OptimalCompletionH", R=R, H=H, N=1, V=4, eos=eos, include_eos=ie, batch_first=False, exclude_last=xl, costs=uneq, time_limit=1500))
+        for R, H, V, eos in ((5, 3, 2, None), (5, 3, 3, None), (5, 3, 3, 0), (6, 3, 2, None), (7, 3, 2, None), (5, 4, 2, None)):
+            ts.append(task(PROP, M_, "OptimalCompletionH", R=R, H=H, N=1, V=V, eos=eos, include_eos=eos is not None, batch_first=False, exclude_last=False, costs=[1.0, 1.0, 1.0], time_limit=1500))
         for ie in (False, True):
             ts.append(task(PROP, M_, "OptimalCompletionH", R=3, H=3, N=1, V=4, eos=0, include_eos=ie, batch_first=False, exclude_last=False, costs="sym", cmax=16))
             ts.append(task(PROP, M_, "OptimalCompletionH", R=3, H=3, N=2, V=4, eos=0, include_eos=ie, batch_first=False, exclude_last=True, costs=uneq, as_module=True))
